@@ -193,16 +193,16 @@ Section Oracles.
   (* entry point: Http::get(url) etc. `url.parse().unwrap()` *)
   Definition start : res request := if url_ok then Ok request0 else Panic.
 
-  (* command API: Http::<verb>(url) ... .build(): into_protocol_request, then exactly one
-     Command::request_from_shell(operation) *)
+  (* Both APIs end in Client::send: caps.http.<verb>(url) ... .send(..) and, since the fix: commit
+     d7f6296, Http::<verb>(url) ... .build() (a Client over the command's context).  The client's
+     own middleware stack is empty (Client::new; `with` is dead code), then the request's stack
+     runs, then the endpoint converts the request and hands it to the effect sender exactly once.
+     [send_cmd] is a request described by builder calls only; [send_cap] has, after the builder
+     calls [ops1], calls [ops2] made on the Request itself by a per-request middleware before it
+     runs `next` (the correspondence harness installs exactly that middleware, for either API). *)
   Definition send_cmd (method : bytes) (ops : list op) : res (list http_request) :=
     bind start (fun r0 => bind (apply_ops ops r0) (fun r => Ok [into_protocol method r])).
 
-  (* capability API: caps.http.<verb>(url) ... .send(..) -> Client::send: the client's middleware
-     stack is empty (Client::new; `with` is dead code), then the request's own stack; the
-     correspondence harness installs one request middleware that makes the request-stage calls
-     [ops2] on the Request and runs `next`; the endpoint converts and hands the request to the
-     effect sender once. *)
   Definition send_cap (method : bytes) (ops1 ops2 : list op) : res (list http_request) :=
     bind start (fun r0 => bind (apply_ops ops1 r0) (fun r1 =>
       bind (apply_ops ops2 r1) (fun r => Ok [into_protocol method r]))).
@@ -345,7 +345,7 @@ Record case := {
   (* the URL oracle's answers for this description: query (None = as parsed) -> serialisation, None = no parse *)
   c_urls : list (option bytes * option bytes);
   c_ops1 : list op;      (* builder stage *)
-  c_ops2 : list op;      (* request stage (capability API only) *)
+  c_ops2 : list op;      (* request stage: calls on the Request, made by a per-request middleware *)
   c_obs : obs            (* the implementation's observation *)
 }.
 
@@ -362,11 +362,9 @@ Definition case_url_ok (c : case) : bool := tbl_url_ok (c_urls c).
 Definition case_url_str (c : case) (q : option bytes) : bytes := tbl_url_str (c_urls c) q.
 Definition case_ops (c : case) : list op := c_ops1 c ++ c_ops2 c.
 
-(* a case is well-formed when the command API has no request-stage calls and the URL table answers
-   every query the description can produce *)
+(* a case is well-formed when the URL table answers every query the description can produce *)
 Definition case_wf (c : case) : bool :=
-  match c_api c with Cmd => match c_ops2 c with [] => true | _ => false end | Cap => true end
-  && match url_lookup (c_urls c) None with
+  match url_lookup (c_urls c) None with
      | None => false
      | Some None => true
      | Some (Some _) =>
@@ -376,9 +374,9 @@ Definition case_wf (c : case) : bool :=
      end.
 
 Definition model_obs (c : case) : obs :=
-  obs_of_res match c_api c with
-             | Cmd => send_cmd (case_url_ok c) (case_url_str c) (fun m => m) (c_method c) (c_ops1 c)
-             | Cap => send_cap (case_url_ok c) (case_url_str c) (fun m => m) (c_method c) (c_ops1 c) (c_ops2 c)
+  obs_of_res match c_api c, c_ops2 c with
+             | Cmd, [] => send_cmd (case_url_ok c) (case_url_str c) (fun m => m) (c_method c) (c_ops1 c)
+             | _, _ => send_cap (case_url_ok c) (case_url_str c) (fun m => m) (c_method c) (c_ops1 c) (c_ops2 c)
              end.
 
 (* 0 agree, property holds;  1 model <> implementation, property holds;  2 property fails outside the
